@@ -47,11 +47,20 @@ type c03Case struct {
 	Clients  int       `json:"clients"`
 	Listener string    `json:"listener"` // plain | tls | ratelimit
 	ReadTO   int       `json:"read_timeout_s"` // HTTPProxyConfig.ReadTimeout (0 = shipped default: none)
+	ConnOpt  string    `json:"conn_opt"`       // Connection option on the CONNECT request: "" | close | keep-alive | Close, x-foo
 	TLS12    bool      `json:"tls12"`          // the scripted TLS peers (client of a TLS listener, HTTPS upstream) speak at most TLS 1.2
 }
 
 // c03MaxTLS: with TLS 1.2 a close_notify alert can sit in the same delivery as the last data record, so that one
 // Read returns the final bytes together with io.EOF.
+// c03ConnLine: a tunnel is a tunnel whatever Connection option the CONNECT request carried.
+func c03ConnLine(c *c03Case) string {
+	if c.ConnOpt == "" {
+		return ""
+	}
+	return "Connection: " + c.ConnOpt + "\r\n"
+}
+
 func c03MaxTLS(c *c03Case) uint16 {
 	if c.TLS12 {
 		return tls.VersionTLS12
@@ -115,6 +124,7 @@ func genC03(t *tape.Tape, tier string) any {
 		c.FaultAt = t.Intn(8)
 	}
 	c.TLS12 = t.Chance(1, 3)
+	c.ConnOpt = []string{"", "close", "keep-alive", "x-foo, Close"}[t.Pick(5, 2, 1, 1)]
 	if c.Fault == "" && t.Chance(1, 5) {
 		// a quiet period in the middle of a healthy tunnel: one endpoint stays silent for a while, the other one
 		// keeps its own direction open until it has seen the pauser's FIN (so the documented 1-minute grace period
@@ -127,6 +137,12 @@ func genC03(t *tape.Tape, tier string) any {
 		x.PauseS = []int{20, 59, 61, 119, 3599, 3601, 7300}[t.Intn(7)]
 		x.WaitPeerFIN = -1
 		y.WaitPeerFIN = len(y.Writes)
+		if len(y.Writes) > 1 && t.Chance(1, 2) {
+			// the other endpoint answers only after it has seen the pauser's end-of-stream: data still flows through an
+			// aged tunnel after its first half-close (it has the 1-minute grace period for that, and needs no time)
+			// (never before write 0: that one may travel in the same segment as the head or the reply)
+			y.WaitPeerFIN = 1 + t.Intn(len(y.Writes)-1)
+		}
 		if t.Chance(1, 4) {
 			c.ReadTO = []int{30, 60, 600}[t.Intn(3)]
 		}
@@ -501,13 +517,13 @@ func runC03(env *core.Env, ci any) {
 			switch c.Route {
 			case "direct", "connectfunc":
 				hp := fmt.Sprintf("%s:%d", ipTarget, 7000+t.idx)
-				head = fmt.Sprintf("CONNECT %s %s\r\nHost: %s\r\n\r\n", hp, proto, hp)
+				head = fmt.Sprintf("CONNECT %s %s\r\nHost: %s\r\n%s\r\n", hp, proto, hp, c03ConnLine(c))
 			case "upgrade":
 				hp := fmt.Sprintf("target.example:%d", 7000+t.idx)
 				head = fmt.Sprintf("GET http://%s/ws/t%d. HTTP/1.1\r\nHost: %s\r\nConnection: Upgrade\r\nUpgrade: websocket\r\nSec-WebSocket-Key: x\r\n\r\n", hp, t.idx, hp)
 			default:
 				hp := fmt.Sprintf("t%d.tunnel.example:443", t.idx)
-				head = fmt.Sprintf("CONNECT %s %s\r\nHost: %s\r\n\r\n", hp, proto, hp)
+				head = fmt.Sprintf("CONNECT %s %s\r\nHost: %s\r\n%s\r\n", hp, proto, hp, c03ConnLine(c))
 			}
 			ep.reply = []byte(head)
 			if c.Coalesce && len(c.Client.Writes) > 0 && ep.faultAt != 0 {
